@@ -146,6 +146,10 @@ pub fn run(ctx: &mut Ctx) {
     ctx_reuse::run(ctx);
     let av1 = gimli::verif::get(&gimli::verif::ARRAYVEC_OPS);
     ctx.obs_n("hook.ARRAYVEC_OPS", av1.wrapping_sub(av0));
+    if ctx.slow() {
+        // Miri slice: only the UnwindContext reuse clause (ArrayVec clear/drop paths)
+        return;
+    }
     die_reuse::run(ctx);
     iter_clone::run(ctx);
     abbrev_cache::run(ctx);
